@@ -272,39 +272,41 @@ def zip_truncations(ctx, fn):
 
 
 # ------------------------------------------------------------------ truth tests of values whose domain has falsy members
-def truth_operands(test, out=None):
-    """the bare names a test evaluates for truth (through `not`, and / or)"""
+def truth_operands(test, out=None, attrs=False):
+    """the bare names (with attrs: also `self.x`) a test evaluates for truth (through `not`, and / or)"""
     out = [] if out is None else out
     if isinstance(test, ast.Name):
         out.append(test)
+    elif attrs and isinstance(test, ast.Attribute) and isinstance(test.value, ast.Name) and test.value.id == 'self':
+        out.append(test)
     elif isinstance(test, ast.UnaryOp) and isinstance(test.op, ast.Not):
-        truth_operands(test.operand, out)
+        truth_operands(test.operand, out, attrs)
     elif isinstance(test, ast.BoolOp):
         for v in test.values:
-            truth_operands(v, out)
+            truth_operands(v, out, attrs)
     return out
 
 
-def truth_tested_names(fn_node):
+def truth_tested_names(fn_node, attrs=False):
     """[(Name node)] of every name the function tests for truth (if / while / conditional expression / not / and / or /
-    bool())"""
+    bool()); with attrs also the `self.x` attributes"""
     from ..loader import own_nodes
     out = []
     seen = set()
     for n in own_nodes(fn_node):
         ts = []
         if isinstance(n, (ast.If, ast.While, ast.IfExp)):
-            truth_operands(n.test, ts)
+            truth_operands(n.test, ts, attrs)
         elif isinstance(n, ast.BoolOp):
             for v in n.values:
-                truth_operands(v, ts)
+                truth_operands(v, ts, attrs)
         elif isinstance(n, ast.UnaryOp) and isinstance(n.op, ast.Not):
-            truth_operands(n.operand, ts)
+            truth_operands(n.operand, ts, attrs)
         elif isinstance(n, ast.Call) and isinstance(n.func, ast.Name) and n.func.id == 'bool' and len(n.args) == 1:
-            truth_operands(n.args[0], ts)
+            truth_operands(n.args[0], ts, attrs)
         elif isinstance(n, ast.comprehension):
             for t in n.ifs:
-                truth_operands(t, ts)
+                truth_operands(t, ts, attrs)
         for t in ts:
             if id(t) not in seen:
                 seen.add(id(t))
@@ -853,6 +855,55 @@ def value_transformer_site(ctx, top_fq='petl.transform.conversions:iterfieldconv
 
 
 # ------------------------------------------------------------------ == between raw rows of two tables
+def row_params(ctx, fn):
+    """Parameters of a private helper that receive a *row* (never a table) at every call site in its module: iterating
+    such a parameter yields cells, whatever the default reading of an iterated argument is."""
+    if not (fn.name.startswith('_') or fn.parent is not None) or fn.cls is not None:
+        return set()
+    cache = ctx.__dict__.setdefault('_row_params', {})
+    if fn in cache:
+        return cache[fn]
+    from ..tables import tableinfo
+    ti = tableinfo(ctx)
+    seen = {}
+    for caller in fn.module.functions.values():
+        if caller is fn:
+            continue
+        try:
+            fa, events = analysed(ctx, caller)
+        except Exception:
+            continue
+        for ev in events:
+            if ev.kind != 'call':
+                continue
+            try:
+                pairs = ti._callees(caller, ev)
+            except Exception:
+                continue
+            for callee, actual in pairs:
+                if callee is not fn:
+                    continue
+                for p, va in actual.items():
+                    v = va[0] if isinstance(va, tuple) and len(va) == 2 and not (va and isinstance(va[0], str)) else va
+                    seen.setdefault(p, []).append(v)
+    out = set()
+    for p, vals in seen.items():
+        ok = True
+        for v in vals:
+            try:
+                atoms = [a for a in v if a != UNDEF]
+            except TypeError:
+                ok = False
+                break
+            if not atoms or not all(a[0] in ('ROW', 'HDR') for a in atoms):
+                ok = False
+                break
+        if ok and vals:
+            out.add(p)
+    cache[fn] = out
+    return out
+
+
 def raw_row_equalities(ctx, fn):
     """[(event, left sources, right sources)]: `a == b` / `a != b` where both operands are rows exactly as two different
     sources delivered them (no tuple() / list() / Comparable() in between).  A list row never equals a tuple row, so
@@ -860,12 +911,27 @@ def raw_row_equalities(ctx, fn):
     out tuples) was skipped with presorted=True."""
     fa, events = analysed(ctx, fn)
     out = []
+    rowp = row_params(ctx, fn)
     for ev in events:
         if ev.kind != 'equal':
             continue
         l, r = ev.info['left'], ev.info['right']
-        if not (l and r and all(a[0] in ('ROW', 'HDR') or a == UNDEF for a in l) and
-                all(a[0] in ('ROW', 'HDR') or a == UNDEF for a in r)):
+        if rowp and any(a[0] in ('ROW', 'HDR') and a[1] in rowp for a in list(l) + list(r)):
+            continue        # "rows" of a parameter that is itself a row at every call site are cells
+        def raw(v):
+            return bool(v) and all(a[0] in ('ROW', 'HDR') or a == UNDEF for a in v)
+
+        def copied(v):
+            # tuple(row) / list(row): a fresh sequence of cells
+            return bool(v) and all(a[0] == 'FRESH' and a[1] in ('tuple', 'list') and a[3] and
+                                   all(b[0] == 'CELL' for b in a[3]) for a in v if a != UNDEF) and any(a != UNDEF for a in v)
+        if l and r and ((raw(l) and copied(r)) or (copied(l) and raw(r))):
+            # one side was brought to a fixed sequence type, the other is as its source delivered it
+            rawside = l if raw(l) else r
+            out.append((ev, ['a %s copy of a row' % '/'.join(sorted({a[1] for a in (r if raw(l) else l) if a != UNDEF}))],
+                        sorted({a[1] for a in rawside if a[0] in ('ROW', 'HDR')})))
+            continue
+        if not (l and r and raw(l) and raw(r)):
             continue
         ls = {a[1] for a in l if a[0] in ('ROW', 'HDR')}
         rs = {a[1] for a in r if a[0] in ('ROW', 'HDR')}
